@@ -5,6 +5,7 @@ open Martian Martian.Proxy
 
 structure St where
   shutdown : Bool := false
+  tlsListener : Bool := false
   items : List Item := []     -- reversed
   bad : Bool := false
 
@@ -70,8 +71,8 @@ def summary (evs : List Ev) (i : Nat) : String :=
   s!"ws={if written then countP (isWarnRes i) evs else 0},{writeInfo i evs},{reqInfo i evs},{hijInfo i evs}"
 
 /-- Does the connection still serve a further request after the listed items? -/
-def stillOpen (shutdown : Bool) (items : List Item) : Bool :=
-  let evs := runConn shutdown 0 (items ++ [.x false .pass .pass (.ok 200 false)])
+def stillOpen (s0 : Martian.Proxy.St) (shutdown : Bool) (items : List Item) : Bool :=
+  let evs := runConnOn s0 shutdown 0 (items ++ [.x false .pass .pass (.ok 200 false)])
   evs.any (isRead items.length)
 
 def links (evs : List Ev) : List Nat := evs.filterMap fun | .link c => some c | _ => none
@@ -79,17 +80,19 @@ def unlinks (evs : List Ev) : List Nat := evs.filterMap fun | .unlink c => some 
 
 def finish (s : St) : String :=
   let items := s.items.reverse
-  let evs := runConn s.shutdown 0 items
+  let s0 : Martian.Proxy.St := if s.tlsListener then tlsListenerState else {}
+  let evs := runConnOn s0 s.shutdown 0 items
   let per := (List.range items.length).map (summary evs)
   let left := (links evs).filter (fun c => !(unlinks evs).contains c)
-  " | ".intercalate per ++ s!" | open={b (stillOpen s.shutdown items)} ctxleft={left.length} distinct={b (links evs).Nodup}"
+  " | ".intercalate per ++ s!" | open={b (stillOpen s0 s.shutdown items)} ctxleft={left.length} distinct={b (links evs).Nodup}"
 
 def step (s : St) (toks : List String) : St × String :=
   match toks with
   | "conn" :: rest =>
+    let tl := (kv rest "listener") == some "tls"
     match (kv rest "shutdown").bind parseBool with
-    | some sd => ({ shutdown := sd }, "ok")
-    | none => ({}, "ok")
+    | some sd => ({ shutdown := sd, tlsListener := tl }, "ok")
+    | none => ({ tlsListener := tl }, "ok")
   | ["end"] => if s.bad then (init, "bad-op") else (init, finish s)
   | _ =>
     match parseItem toks with
